@@ -48,6 +48,9 @@ type Case struct {
 	// Neighbour: "" | "unreliable" | "partial": a second upstream of that QoS on the same connection (shared sent storage),
 	// writing a few points around the main stream's traffic and resumed with it at every reconnect
 	Neighbour string `json:"neighbour,omitempty"`
+	// AckTimeoutMs > 0: the stream is opened with that ack timeout (far longer than the case: it never expires here; the end of
+	// a connection must not be mistaken for it - seeded change C02/m5)
+	AckTimeoutMs int `json:"ack_timeout_ms,omitempty"`
 }
 
 const neighbourSession = "session-c02-neighbour"
@@ -64,6 +67,10 @@ type history struct {
 	UpID      [16]byte
 	FiredCuts int
 	Resumed   int
+	// FinalInc: the connection that is alive at the end (-1: none); ResumedOnFinal: the stream completed a resume exchange on it
+	FinalInc       int
+	ResumedOnFinal bool
+	ProbeWrite     string // outcome of a write+flush issued at the very end, before Close ("" = both returned nil)
 	SentAcks  []upk.SentResult // results the broker sent for the main stream's chunks
 	DeadInc   map[int]bool     // connections that died
 }
@@ -207,7 +214,7 @@ func run(c Case) (*history, string, *ev.Failure) {
 		defer cancel()
 		up, err = conn.OpenUpstream(ctx, "session-c02", iscp.WithUpstreamQoS(message.QoSReliable), c.Policy.Option(),
 			iscp.WithUpstreamSendDataPointsHooker(rec), iscp.WithUpstreamReceiveAckHooker(rec), iscp.WithUpstreamClosedEventHandler(rec),
-			iscp.WithUpstreamResumedEventHandler(rec), iscp.WithUpstreamCloseTimeout(2*time.Second))
+			iscp.WithUpstreamResumedEventHandler(rec), iscp.WithUpstreamCloseTimeout(2*time.Second), iscp.WithUpstreamAckTimeout(time.Duration(c.AckTimeoutMs)*time.Millisecond))
 	})
 	if !ok {
 		return nil, "OpenUpstream", nil
@@ -269,7 +276,8 @@ func run(c Case) (*history, string, *ev.Failure) {
 			}
 			mu.Lock()
 			cc := curCut()
-			idle := cc != nil && cc.Phase == "idle" && time.Since(idleT0) >= time.Duration(cc.AfterMs)*time.Millisecond
+			idle := cc != nil && (cc.Phase == "idle" || cc.Phase == "half-open") && time.Since(idleT0) >= time.Duration(cc.AfterMs)*time.Millisecond
+			halfOpen := idle && cc.Phase == "half-open"
 			if idle {
 				cutIdx++
 				fired++
@@ -277,7 +285,14 @@ func run(c Case) (*history, string, *ev.Failure) {
 			mu.Unlock()
 			if idle {
 				if l := w.CurrentLink(); l != nil {
-					l.DrainThenSever(20 * time.Millisecond)
+					if halfOpen {
+						// the outgoing path dies first: writes fail, reads keep blocking; the client notices through a failed write
+						// (the busy writer below provides one) and redials; the old link is cut for good a little later
+						l.BreakWrites()
+						go func() { time.Sleep(30 * time.Millisecond); l.Sever() }()
+					} else {
+						l.DrainThenSever(20 * time.Millisecond)
+					}
 				}
 				time.Sleep(40 * time.Millisecond)
 			}
@@ -389,6 +404,26 @@ func run(c Case) (*history, string, *ev.Failure) {
 			h.Closed = true
 		}
 	})
+	// a last write+flush before Close: on a stream that is neither resumed nor closed it neither succeeds nor fails with the
+	// stream-closed error - it runs into its deadline (seeded change C02/m6)
+	sim.Call(perCall, func() {
+		ctx, cancel := sim.Ctx(1500 * time.Millisecond)
+		defer cancel()
+		ctr := 900000
+		r := upk.RunWriter(up, 8, []upk.Op{{Kind: "write", ID: 2, Sizes: []int{5}}, {Kind: "flush"}}, 1500*time.Millisecond, &ctr)
+		_ = ctx
+		h.Accepted = append(h.Accepted, r.Accepted...)
+		for _, e := range r.Errors {
+			if containsStreamClosed(e) {
+				h.Closed = true
+			} else {
+				h.ProbeWrite = e
+			}
+		}
+		if r.Hung != "" {
+			h.ProbeWrite = "hung: " + r.Hung
+		}
+	})
 	var cerr error
 	ok, _ = sim.Call(perCall, func() {
 		ctx, cancel := sim.Ctx(3 * time.Second)
@@ -422,6 +457,18 @@ func run(c Case) (*history, string, *ev.Failure) {
 		}
 	}
 	h.Resumed = rec.ResumedCount()
+	h.FinalInc = -1
+	if inc := b.CurrentInc(); inc != nil && inc.Connect != nil && !inc.Link.Dead() {
+		h.FinalInc = inc.Index
+		if inc.Index == 0 {
+			h.ResumedOnFinal = true
+		}
+		for _, e := range h.Ledger {
+			if m, ok := e.Msg.(*message.UpstreamResumeResponse); ok && !e.In && e.Inc == inc.Index && m.ResultCode == message.ResultCodeSucceeded {
+				h.ResumedOnFinal = true
+			}
+		}
+	}
 	mu.Lock()
 	h.FiredCuts = fired
 	mu.Unlock()
@@ -627,6 +674,11 @@ func oracle(c Case, h *history, k *ev.Case) *ev.Failure {
 		k.Label("stream-reported-closed")
 		return nil // no further obligation once the stream has been reported closed
 	}
+	// clause 8: never in limbo - with the connection back, the stream has either resumed on it or been reported closed, and an
+	// ordinary write then either works or fails with the stream-closed error
+	if h.ProbeWrite != "" && h.FinalInc >= 0 {
+		return fail("C02.8 neither-resumed-nor-closed", "with the connection back, a write+flush on the stream neither succeeded nor failed with the stream-closed error: %s", h.ProbeWrite)
+	}
 	if h.CloseErr != "" {
 		k.Label("close-error")
 		return nil
@@ -807,7 +859,7 @@ func gen(t *rapid.T) Case {
 	}
 	nc := rapid.SampledFrom([]int{1, 1, 1, 2, 3}).Draw(t, "ncuts")
 	for i := 0; i < nc; i++ {
-		cut := Cut{Phase: rapid.SampledFrom([]string{"before-ack", "before-ack", "after-ack", "after-ack", "idle", "on-resume-request", "after-resume-response", "redial-handshake"}).Draw(t, "phase")}
+		cut := Cut{Phase: rapid.SampledFrom([]string{"before-ack", "before-ack", "after-ack", "after-ack", "idle", "half-open", "half-open", "on-resume-request", "after-resume-response", "redial-handshake"}).Draw(t, "phase")}
 		if i == 0 && (cut.Phase == "on-resume-request" || cut.Phase == "after-resume-response" || cut.Phase == "redial-handshake") {
 			cut.Phase = "before-ack" // the first failure has to hit the first connection
 		}
@@ -823,6 +875,9 @@ func gen(t *rapid.T) Case {
 	}
 	c.Refuse = rapid.IntRange(0, 9).Draw(t, "refuse") == 0
 	c.Neighbour = rapid.SampledFrom([]string{"", "", "unreliable", "partial"}).Draw(t, "neighbour")
+	if rapid.IntRange(0, 2).Draw(t, "acktimeout") == 0 {
+		c.AckTimeoutMs = rapid.SampledFrom([]int{60000, 600000}).Draw(t, "acktimeoutms")
+	}
 	if rapid.IntRange(0, 24).Draw(t, "slowack") == 0 { // rare: each such case takes 1.3 s longer
 		c.Cuts = []Cut{{Phase: "idle", N: 1, Withhold: []int{1, 2, 3}, AfterMs: 1300}}
 	}
